@@ -81,6 +81,30 @@ pub fn case(op: &Op, a: &M, la: usize, b: Option<(&M, usize)>) {
     if outs.iter().any(|o| o.is_err()) {
         mc::count("cases_with_a_panic");
     }
+    // calibration record: worst deviation from the model among the backends that match it
+    if let Exp::Val(want) = &exp {
+        let mut worst = 0.0f64;
+        for (ix, o) in outs.iter().enumerate() {
+            if let (true, Ok(got)) = (matches[ix], o) {
+                for (g, w) in got.iter().zip(want) {
+                    for (x, y) in g.d.iter().zip(&w.d) {
+                        if x != y && x.is_finite() && y.is_finite() {
+                            worst = worst.max((x - y).abs() / x.abs().max(y.abs()).max(scale));
+                        }
+                    }
+                }
+            }
+        }
+        mc::count(if worst == 0.0 {
+            "deviation_from_model_none"
+        } else if worst <= 1e-14 {
+            "deviation_from_model_le_1e-14"
+        } else if worst <= 1e-12 {
+            "deviation_from_model_le_1e-12"
+        } else {
+            "deviation_from_model_le_1e-10"
+        });
+    }
     if agree && !all_match {
         // the three backends do the same thing, which is not what the textbook model does: not a
         // backend-equivalence matter unless the statement names the operation explicitly
